@@ -232,8 +232,9 @@ class C(VPCheck):
         if noop:
             stmts.append(('emit', ('eq', '$r', '$e')))
         if post_t is not None:
+            stmts.append(('emit', post_t))       # the key as the library itself constructs it (index 6): what t0 stands for
             spec = e
-            post = (lambda t, kx=post_t: tree_subst(t, 't0', kx))
+            post = True
         else:
             m = {k[1]: v for k, v in pairs if k[0] == 'sym'}
             spec = recipe_subst(e, m)
@@ -255,6 +256,10 @@ class C(VPCheck):
             it['spec'] = tree_subst_map(te, it['symmap'])
         else:
             it['spec'] = te
+            sk = r.s(6)
+            if sk is None or sk.st != 'ok':
+                return None
+            return tree_subst(st.v['t'], 't0', sk.v['t'])
         return VPCheck.result_tree(self, it, st)
 
     def _rebuild_family(self, ta, tb):
@@ -289,6 +294,10 @@ class C(VPCheck):
         k = VPCheck.key_of(self, it, detail)
         k['api'] = it['label']
         k['map'] = 'subexpr' if it.get('post') else ('sym')
+        if '(atan2' in gen.recipe_str(it['recipe']):
+            k['family'] = 'inherits-atan2-quadrant'
+            k.pop('shape', None)
+            return k
         kr = it.get('keyrecipe')
         if kr is not None and _has_fractional_power_of(it.get('_rawtree'), 't0'):     # the key was (or evaluated to) a power b**p
             k['family'] = 'power-key-noninteger-ratio'
